@@ -10,14 +10,16 @@
 (*   now  virtual time in ms                                               *)
 (*   f    sequence of lock files        <<owner, time, exclusive>>         *)
 (*   p    sequence, one per process     <<believes, ctxAlive, exclusive,   *)
-(*                                        robbed, stall, clean, faulted>>  *)
+(*                                        robbed, stall, clean, faulted,   *)
+(*                                        newest>>                         *)
 (*   r    sequence of remote holders    <<time, exclusive>>                *)
 (* believes = Lock() returned success and the process neither called       *)
 (* Unlock nor died; ctxAlive = the context returned by Lock() is not       *)
 (* cancelled; robbed = somebody else removed a lock file of the process;   *)
 (* stall = total time (ms) the process was stalled inside backend          *)
 (* operations so far; clean = finished by Unlock() without any injected    *)
-(* fault/removal/cancel; faulted = a Save/Remove fault was ever injected.  *)
+(* fault/removal/cancel; faulted = a Save/Remove fault was ever injected;  *)
+(* newest = time of the newest lock file the process saved (-1: none).     *)
 (* A remote holder is a process on another host that saved a lock file at  *)
 (* `time` and follows the protocol: it stops using the repository when it  *)
 (* could not refresh for RefreshTO.                                        *)
@@ -48,9 +50,13 @@ HolderHasFile(o) ==
 
 \* C13: a holder whose context is alive has a lock file that nobody whose clock agrees within the margin can
 \* judge stale: young enough by the refreshability timeout (+ the time the environment stalled the process)
-FreshWhileActive(o) ==
-  \A i \in 1..Len(o.p) : (Holds(o, i) /\ ~Robbed(o, i)) =>
-      \E k \in OwnFiles(o, i) : o.now - o.f[k][2] <= RefreshToMs + SlackMs + StallOf(o, i)
+FreshWithin(o, slack) ==
+  \A i \in 1..Len(o.p) : Holds(o, i) =>
+      IF Robbed(o, i)
+      THEN \* its lock file was removed by others: judged by the newest lock file it managed to save
+           o.now - o.p[i][8] <= RefreshToMs + slack + StallOf(o, i)
+      ELSE \E k \in OwnFiles(o, i) : o.now - o.f[k][2] <= RefreshToMs + slack + StallOf(o, i)
+FreshWhileActive(o) == FreshWithin(o, SlackMs)
 
 \* C13: removes its lock when it finishes
 ReleasedClean(o) ==
